@@ -41,6 +41,8 @@ func runC09(c *an.Ctx) {
 	r094(c)
 	r095(c, "R09.5")
 	registryRebuild(c, "R09.6")
+	r045as(c, "R09.7") // a forwarding loop drops an event only by configuration: with or without backpressure the last event is the final value
+	c.Min("R09.7", 2)
 	c.Min("R09.5", 5)
 	c.Min("R09.1", 32)
 	c.Min("R09.2", 8)
